@@ -212,5 +212,6 @@ try:
             dependencies=solution.dependencies(rule.extra_deps),
         )
         solution[rule.output[0]] = project
+        solution.claim_outputs(rule.output[1:])
 except ImportError:  # pragma: no cover
     pass
